@@ -335,6 +335,76 @@ func ruleJSONShape(c *Ctx, rule string) {
 			})
 		}
 		_ = structObj
+		// the object may be built by a helper of the receiver (`json.Marshal(m.jsonFields())`)
+		if len(entries) == 0 {
+			instrsOf(fn, func(in ssa.Instruction) {
+				call, ok := in.(*ssa.Call)
+				if !ok || len(call.Call.Args) == 0 || len(entries) > 0 {
+					return
+				}
+				sc := call.Call.StaticCallee()
+				if sc == nil || sc.Pkg == nil || sc.Pkg.Pkg.Path() != "encoding/json" || !strings.HasPrefix(sc.Name(), "Marshal") {
+					return
+				}
+				mi, ok := call.Call.Args[0].(*ssa.MakeInterface)
+				if !ok {
+					return
+				}
+				hc, ok := mi.X.(*ssa.Call)
+				if !ok {
+					return
+				}
+				h := hc.Call.StaticCallee()
+				if h == nil || !c.isRepoFn(h) || len(h.Blocks) == 0 || len(hc.Call.Args) == 0 || hc.Call.Args[0] != ssa.Value(recv) || len(h.Params) == 0 {
+					return
+				}
+				hcds := NewPostDom(h).ControlDeps()
+				hrecv := h.Params[0]
+				instrsOf(h, func(y ssa.Instruction) {
+					mu, ok := y.(*ssa.MapUpdate)
+					if !ok {
+						return
+					}
+					k, ok := mu.Key.(*ssa.Const)
+					if !ok || k.Value == nil || k.Value.Kind() != constant.String {
+						return
+					}
+					e := &mapEntry{key: constant.StringVal(k.Value), src: describeValue(mu.Value, hrecv), in: mu}
+					for _, ce := range hcds[mu.Block()] {
+						if iff, ok := ce.Branch.Instrs[len(ce.Branch.Instrs)-1].(*ssa.If); ok {
+							d := describeValue(iff.Cond, hrecv)
+							if ce.Succ == 1 {
+								d = "!" + d
+							}
+							e.conds = append(e.conds, d)
+						}
+					}
+					entries[e.key] = e
+				})
+				if len(entries) > 0 {
+					mapVal = mi.X
+				}
+			})
+		}
+		// ... or written out by hand from constant text and integers only (`{"end":` + AppendInt + ...): the skeleton is checked
+		handBuilt := false
+		if len(entries) == 0 {
+			if skel, srcs, ok := handBuiltJSON(fn, recv); ok {
+				text := skel
+				for i := range srcs {
+					text = strings.Replace(text, "\x00", fmt.Sprintf("%d", 7000+i), 1)
+				}
+				var obj map[string]int
+				if json.Unmarshal([]byte(text), &obj) == nil {
+					handBuilt = true
+					for k, v := range obj {
+						if v >= 7000 && v-7000 < len(srcs) {
+							entries[k] = &mapEntry{key: k, src: srcs[v-7000], in: fn.Blocks[0].Instrs[0]}
+						}
+					}
+				}
+			}
+		}
 		name := w.pkg + "." + w.typ + ".MarshalJSON"
 		for _, k := range sortedKeys(w.keys) {
 			ob := r.Ob(rule, fmt.Sprintf("%s: key %q", name, k), c.pos(fn.Pos()))
@@ -380,6 +450,10 @@ func ruleJSONShape(c *Ctx, rule string) {
 				}
 			}
 		})
+		if handBuilt {
+			ob.OKnt("the object is written out from constant text and decimal integers only; the skeleton parses as a JSON object")
+			continue
+		}
 		ob.Check(okRet, "json.Marshal is applied to the map that was filled", "the map that is filled is not the value passed to json.Marshal")
 	}
 }
@@ -408,6 +482,12 @@ func (c *Ctx) jsonSafe(t types.Type, ifaceProducers map[string][]types.Type, see
 	seen[key] = true
 	if n, ok := t.(*types.Named); ok && n.Obj().Pkg() != nil {
 		if m := c.marshalJSONMethod(t); m != nil && c.isRepoPkg(m.Pkg()) {
+			// a MarshalJSON with a pointer receiver is only used for addressable values; a value held in an interface, a map element
+			// or passed by value is encoded by the default rules (Go field names) instead
+			onValue := c.Prog.MethodSets.MethodSet(t).Lookup(nil, "MarshalJSON") != nil
+			if !onValue && !strings.HasSuffix(path, "*") {
+				return false, path + ": " + types.TypeString(t, shortQual) + " has MarshalJSON on the pointer receiver only, but is encoded here as a value that is not addressable: encoding/json skips the method and writes the Go field names"
+			}
 			return true, "" // its own MarshalJSON is examined separately
 		}
 	}
@@ -504,6 +584,23 @@ func ruleJSONMarshalSafe(c *Ctx, rule string) {
 				}
 				if mi, ok := arg.(*ssa.MakeInterface); ok {
 					ts = append(ts, mi.X.Type())
+					// a map[string]any built by a helper of this package: the dynamic types of `any` are what the helper stores
+					if hc, ok := mi.X.(*ssa.Call); ok {
+						if h := hc.Call.StaticCallee(); h != nil && c.isRepoFn(h) && len(h.Blocks) > 0 {
+							if mp, ok := mi.X.Type().Underlying().(*types.Map); ok && types.IsInterface(mp.Elem()) {
+								ek := types.TypeString(mp.Elem(), nil)
+								instrsOf(h, func(in2 ssa.Instruction) {
+									if mu, ok := in2.(*ssa.MapUpdate); ok {
+										if vmi, ok := mu.Value.(*ssa.MakeInterface); ok {
+											local[ek] = append(local[ek], vmi.X.Type())
+										} else {
+											local[ek] = append(local[ek], mu.Value.Type())
+										}
+									}
+								})
+							}
+						}
+					}
 					// a map[string]any filled in this function: the dynamic types of `any` are the stored values
 					if mp, ok := mi.X.Type().Underlying().(*types.Map); ok && types.IsInterface(mp.Elem()) {
 						ek := types.TypeString(mp.Elem(), nil)
@@ -579,6 +676,18 @@ func ruleJSONMarshalSafe(c *Ctx, rule string) {
 					}
 					good = false
 				})
+				if !good && len(fn.Params) > 0 {
+					if skel, srcs, ok := handBuiltJSON(fn, fn.Params[0]); ok {
+						text := skel
+						for range srcs {
+							text = strings.Replace(text, "\x00", "0", 1)
+						}
+						if json.Valid([]byte(text)) {
+							ob.OKnt("the bytes are constant JSON text with decimal integers in between; no text that would need escaping is written")
+							return
+						}
+					}
+				}
 				ob.Check(good, "every return hands back the result of a json.Marshal call", "a MarshalJSON method builds its bytes by hand instead of through encoding/json: nothing guarantees valid JSON for arbitrary text (control characters, invalid UTF-8)")
 			}
 		}
@@ -830,4 +939,110 @@ func ruleJSONTextUntouched(c *Ctx, rule string) {
 		}
 	}
 	r.Floor(rule, "JSON renderings", n, 4)
+}
+
+// handBuiltJSON recognises a byte slice that is appended together from constant strings/bytes and strconv.AppendInt of integer
+// values, and that is the only thing the function returns (with a nil error). It yields the text with a NUL byte for every integer
+// and the description of each integer's source. Anything else that is appended (a string variable, a %s) makes it fail: such text
+// would need escaping.
+func handBuiltJSON(fn *ssa.Function, recv *ssa.Parameter) (string, []string, bool) {
+	var rets []ssa.Value
+	instrsOf(fn, func(in ssa.Instruction) {
+		if r, ok := in.(*ssa.Return); ok && len(r.Results) >= 1 {
+			rets = append(rets, r.Results[0])
+		}
+	})
+	if len(rets) != 1 {
+		return "", nil, false
+	}
+	var srcs []string
+	var build func(v ssa.Value, depth int) (string, bool)
+	build = func(v ssa.Value, depth int) (string, bool) {
+		if depth > 40 {
+			return "", false
+		}
+		switch x := v.(type) {
+		case *ssa.MakeSlice:
+			if k, ok := constInt(x.Len); ok && k == 0 {
+				return "", true
+			}
+		case *ssa.Slice:
+			// make([]byte, 0, constant): a fresh array sliced to length 0
+			if _, isAlloc := x.X.(*ssa.Alloc); isAlloc && x.High != nil {
+				if k, ok := constInt(x.High); ok && k == 0 {
+					return "", true
+				}
+			}
+		case *ssa.Const:
+			if x.Value == nil {
+				return "", true
+			}
+		case *ssa.Convert:
+			if k, ok := x.X.(*ssa.Const); ok && k.Value != nil && k.Value.Kind() == constant.String {
+				return constant.StringVal(k.Value), true
+			}
+			return build(x.X, depth+1)
+		case *ssa.Call:
+			if b, ok := x.Call.Value.(*ssa.Builtin); ok && b.Name() == "append" && len(x.Call.Args) == 2 {
+				prev, ok := build(x.Call.Args[0], depth+1)
+				if !ok {
+					return "", false
+				}
+				switch a := x.Call.Args[1].(type) {
+				case *ssa.Const:
+					if a.Value != nil && a.Value.Kind() == constant.String {
+						return prev + constant.StringVal(a.Value), true
+					}
+				case *ssa.Convert:
+					if k, ok := a.X.(*ssa.Const); ok && k.Value != nil && k.Value.Kind() == constant.String {
+						return prev + constant.StringVal(k.Value), true
+					}
+				case *ssa.Slice:
+					// append(buf, 'c'): a one-element array literal
+					if al, ok := a.X.(*ssa.Alloc); ok {
+						text := ""
+						okAll := true
+						for _, ref := range *al.Referrers() {
+							if ia, ok := ref.(*ssa.IndexAddr); ok {
+								for _, r2 := range *ia.Referrers() {
+									if st, ok := r2.(*ssa.Store); ok {
+										if k, ok := constInt(st.Val); ok {
+											text += string(rune(k))
+										} else {
+											okAll = false
+										}
+									}
+								}
+							}
+						}
+						if okAll && text != "" {
+							return prev + text, true
+						}
+					}
+				}
+				return "", false
+			}
+			if sc := x.Call.StaticCallee(); sc != nil && sc.Pkg != nil && sc.Pkg.Pkg.Path() == "strconv" && sc.Name() == "AppendInt" && len(x.Call.Args) == 3 {
+				prev, ok := build(x.Call.Args[0], depth+1)
+				if !ok {
+					return "", false
+				}
+				srcs = append(srcs, describeValue(stripConv(x.Call.Args[1]), recv))
+				return prev + "\x00", true
+			}
+		}
+		return "", false
+	}
+	text, ok := build(rets[0], 0)
+	return text, srcs, ok
+}
+
+func stripConv(v ssa.Value) ssa.Value {
+	for {
+		if cv, ok := v.(*ssa.Convert); ok {
+			v = cv.X
+			continue
+		}
+		return v
+	}
 }
